@@ -42,6 +42,16 @@ CHECKS = {
              'case spellings and prefix pairs of 28 string-coded enumerations and 5 SSH name-lists; static no-alias '
              'clause over every enumeration. Exact for the 1- and 2-byte spaces.',
         design='§5 C10'),
+    'C11': dict(
+        technique='complete / boundary enumeration of primitive calls against int.to_bytes, under enumerated TZ '
+                  'process configurations',
+        text='ComposerBinary/ParserBinary driven directly: widths 1-2 all values, width 3 all values with <= 2 '
+             'non-zero bytes (all 2^24 thorough), widths 4/8 boundary patterns, four byte orders, both directions; '
+             'out-of-range values must raise InvalidValue; every subset of every wire flag enum and every word of '
+             '1-2 byte flag fields; fixed-length mpints [0,2^16] x 7 lengths; SSH mpints [-2^17,2^17] and +-(2^n+-1); '
+             'timestamps (4/8 bytes, s/ms, naive/aware/other-zone, sentinel) on a 7-day (1-day thorough) grid '
+             '1970-2106 plus every UTC-offset transition, under 14 TZ settings.',
+        design='§5 C11'),
     'C12': dict(
         technique='explicit-state BFS over edit sequences on real vector objects against a list model',
         text='Every concrete ArrayBase subclass of the library (plus four tight-bound toy subclasses that run the '
